@@ -316,7 +316,12 @@ class TasksFamily(_Base):
         res.append(v('robustness', f'gave-up-although-usable:tasks:{end[1]}',
                      f'{end}; fired {obs["fired"]}'))
       elif usable and not app:
-        res.append(v('robustness', f'raised-although-usable:tasks:{end[1]}',
+        what = end[1]
+        if end[1] == 'RuntimeError' and 'Failed to connect to worker' in end[2]:
+          # CourierClient.submit waited a whole heartbeat threshold for a
+          # worker that left right after it had been picked as idle and alive
+          what = 'submit-to-departed-worker'
+        res.append(v('robustness', f'raised-although-usable:tasks:{what}',
                      f'{end}; fired {obs["fired"]}; restarts {obs["restarts"]}'))
       # otherwise any error is acceptable
     if obs['acquired']:
@@ -402,8 +407,30 @@ class ShardsFamily(_Base):
     obs['acquired'] = [w.address for w in pool.acquired_workers]
     obs['fired'] = policy.fired
     obs['restarts'] = policy.restarts
+    import courier
+    obs['gen_calls'] = [
+        [c.idx, c.address, c.method, c.outcome, c.ran_at]
+        for c in courier.NET.calls
+        if c.method in ('init_generator', 'next_batch_from_generator')]
     cl.stop_all(join=False)
     return obs
+
+  @staticmethod
+  def _abandoned_request_served_late(obs):
+    """A generator request the client gave up on (deadline exceeded) whose
+    handler only ran after a LATER init_generator on the same worker had been
+    handled: it acts on a generator that is not the one it was sent for (a late
+    init replaces the running generator, a late next_batch takes a batch
+    nobody receives).  Returns the pair of calls, or None."""
+    calls = obs.get('gen_calls') or []
+    for x in calls:
+      if x[3] != 'deadline' or x[4] is None:
+        continue
+      for y in calls:
+        if (y[1] == x[1] and y[2] == 'init_generator' and y[0] > x[0]
+            and y[4] is not None and y[4] <= x[4]):
+          return [x, y]
+    return None
 
   def check(self, cfg, out):
     dl = common.deadlock_violation(out)
@@ -438,7 +465,12 @@ class ShardsFamily(_Base):
                      'the iterator finished normally'))
       else:
         missing = ref - got
-        if missing and not obs['jumped']:
+        late = self._abandoned_request_served_late(obs)
+        if missing and late:
+          res.append(v('at-least-once', 'batch-lost-to-abandoned-request:shards',
+                       f'{dict(missing)}; the abandoned call {late[0]} ran after '
+                       f'{late[1]}; fired {obs["fired"]}'))
+        elif missing and not obs['jumped']:
           res.append(v('at-least-once', 'batch-never-delivered:shards',
                        f'{dict(missing)}; fired {obs["fired"]}'))
         if obs['n_results'] != 1:
@@ -452,12 +484,15 @@ class ShardsFamily(_Base):
             kind = ('state-merged-more-than-once' if got_int[0] > ref_int[0]
                     else 'state-lost')
           if obs['jumped']:
-            # re-submission of live tasks after the jump: a state merged twice,
-            # or twice in place of another one - one mechanism, one signature
             kind = 'wrong-after-clock-jump'
+          late = self._abandoned_request_served_late(obs)
+          if late:
+            kind = 'wrong-after-abandoned-request'
           res.append(v('aggregate', f'{kind}:shards',
                        f"in-process {obs['ref_res']} != distributed {obs['res']}; "
-                       f'fired {obs["fired"]} jumped={obs["jumped"]}'))
+                       f'fired {obs["fired"]} jumped={obs["jumped"]}'
+                       + (f'; abandoned call {late[0]} ran after {late[1]}'
+                          if late else '')))
     else:
       if app and end[1] == 'RuntimeError' and 'Failed at' in end[2]:
         pass
